@@ -13,6 +13,8 @@ if args and args[0] == "--round5":
     root, tag, args = "/tmp/seed5", "r5", args[1:]
 if args and args[0] == "--round6":
     root, tag, args = "/tmp/seed6", "r6", args[1:]
+if args and args[0] == "--round8":
+    root, tag, args = "/tmp/seed8", "r8", args[1:]
 if args and args[0] == "--round7":
     root, tag, args = "/tmp/seed7", "r7", args[1:]
 for pid in args:
